@@ -58,7 +58,7 @@ INFO_TILDE = ['~x', '~~ lang', '`tick`', 'a ``` b', '~', 'sh ~~~', '~~~']
 FENCE_LINES = ['code line', 'x = 1', '    indented', '# not a heading', '- not a list', '> not a quote', '*not emph*', '<div>', '', 'a  b', '[ref]: /nope',
                '``', '~', '| a | b |', '&amp; <&>', '\\*', '1. one', '---', '===']
 HTML6 = [['<div>', 'inner *not emph*', '</div>'], ['<table>', '<tr><td>', 'cell', '</td></tr>', '</table>'], ['<p class="c">text</p>'], ['</div>'],
-         ['<DIV CLASS="foo">', '*Markdown*', '</DIV>'], ['<hr />'], ['<section>']]
+         ['<DIV CLASS="foo">', '*Markdown*', '</DIV>'], ['<hr />'], ['<section>'], ['<hr/>'], ['<div/>', '*not emph*'], ['<HR/>'], ['<col/>text']]
 HTML1 = [['<pre>', 'keep  this', '', '  and *this*', '</pre>'], ['<script>', 'var x = "<p>";', '', '</script>'], ['<style>p{color:red}</style>'],
          ['<textarea>', '', '*x*', '</textarea>']]
 HTML2 = [['<!-- comment -->'], ['<!--', 'multi', '', 'line -->'], ['<?php echo 1; ?>'], ['<!DOCTYPE html>'], ['<![CDATA[', 'x < y', ']]>']]
